@@ -247,7 +247,5 @@ def contracts(tier):
     yield ("StandardRequestHandler", "blockram", make_req(False))
     if tier != "quick":
         yield ("USBStreamInEndpoint", "max64", make_in("endpoint", 64))
-        yield ("USBStreamInEndpoint", "max512", make_in("endpoint", 512))
         yield ("USBStreamOutEndpoint", "max64", make_out(64))
-        yield ("USBStreamOutEndpoint", "max512", make_out(512))
         yield ("StandardRequestHandler", "distributed", make_req(True))
